@@ -96,8 +96,7 @@ pub fn addr_u64(v: &Value) -> Option<u64> {
 }
 
 /// Build a ControlFlowGraph from the `proj::cfg` shape.  Block indices must be
-/// 0..n-1 in order (new_block allocates them sequentially); instruction indices are
-/// allocated by falcon and therefore come out as 0..k-1 per block.
+/// 0..n-1 in order (new_block allocates them sequentially); instruction indices are kept.
 pub fn cfg(v: &Value) -> il::ControlFlowGraph {
     let mut g = il::ControlFlowGraph::new();
     for (n, b) in v["blocks"].as_array().unwrap().iter().enumerate() {
@@ -105,17 +104,10 @@ pub fn cfg(v: &Value) -> il::ControlFlowGraph {
         assert_eq!(blk.index() as u64, b["i"].as_u64().unwrap(), "block indices must be dense");
         assert_eq!(blk.index(), n);
         for ins in b["ins"].as_array().unwrap() {
-            match operation(&ins["op"]) {
-                il::Operation::Assign { dst, src } => blk.assign(dst, src),
-                il::Operation::Store { index, src } => blk.store(index, src),
-                il::Operation::Load { dst, index } => blk.load(dst, index),
-                il::Operation::Branch { target } => blk.branch(target),
-                il::Operation::Intrinsic { intrinsic } => blk.intrinsic(intrinsic),
-                il::Operation::Nop { .. } => blk.nop(),
-            }
-            let a = addr_u64(&ins["addr"]);
-            let last = blk.instructions_mut().last_mut().unwrap();
-            last.set_address(a);
+            // keep the recorded instruction index (indices need not be contiguous)
+            let mut i = il::Instruction::new(ins["i"].as_u64().unwrap() as usize, operation(&ins["op"]));
+            i.set_address(addr_u64(&ins["addr"]));
+            blk.instructions_mut().push(i);
         }
     }
     for e in v["edges"].as_array().unwrap() {
